@@ -14,4 +14,4 @@ ASSUMPTIONS = ["toml/ec4rs behave as documented", "rustc MIR and Instance::try_r
 
 def run(ctx):
     return [r_cfg.rule_override_last(ctx, "C15"), r_cfg.rule_search(ctx, "C15"), r_cfg.rule_walkup(ctx, "C15"),
-            r_cfg.rule_overrides(ctx, "C15"), r_cfg.rule_fallback_locations(ctx, "C15"), r_cfg.rule_search_start(ctx, "C15"), r_cfg.rule_cache_writers(ctx, "C15"), r_cfg.rule_config_errors(ctx, "C15")]
+            r_cfg.rule_overrides(ctx, "C15"), r_cfg.rule_fallback_locations(ctx, "C15"), r_cfg.rule_search_start(ctx, "C15"), r_cfg.rule_cache_writers(ctx, "C15"), r_cfg.rule_config_errors(ctx, "C15"), r_cfg.rule_stdin_filepath(ctx, "C15")]
